@@ -86,6 +86,11 @@ pub fn strategy(ty: Ty, max_ops: usize) -> BoxedStrategy<HistCase> {
     }
 }
 
+pub fn boundary_strategy(ty: Ty, max_ops: usize) -> BoxedStrategy<HistCase> {
+    let info = ty.info();
+    (gens::det_spec(ty, true), gens::boundary_pre(&info), gens::boundary_ops(&info, max_ops)).prop_map(|(spec, pre, ops)| HistCase { spec, pre, ops }).boxed()
+}
+
 pub fn def(ctx: &Ctx) -> PropDef {
     let t = ctx.tier;
     let mut subs: Vec<Box<dyn SubCheck>> = Vec::new();
@@ -98,6 +103,9 @@ pub fn def(ctx: &Ctx) -> PropDef {
             }
         } else {
             subs.push(PSub::boxed(format!("hist/{}", ty.name()), t.pick(6000, 300_000), move || strategy(ty, max_ops), check_hist));
+            if ty.info().block > 0 {
+                subs.push(PSub::boxed(format!("boundary/{}", ty.name()), t.pick(6000, 300_000), move || boundary_strategy(ty, 12), check_hist));
+            }
         }
     }
     if ctx.tier == crate::engine::Tier::Thorough {
@@ -106,7 +114,7 @@ pub fn def(ctx: &Ctx) -> PropDef {
     }
     PropDef {
         id: "C05",
-        rule: "cases = (type in 19 deterministic generators + scripted-timer JitterRng) x constructor (from_seed incl. zero seeds, seed_from_u64) x pre-advance (every buffer index) x history of next_u32/next_u64/fill_bytes(n) (n in {0; 1-8; 9-64; around one and two blocks; <=5000}). Generator A executes the history; twin B, built the same way, is only asked for native-width words; the projection model written from the statement predicts every value A returns from B's word stream, and at the end A's next 4 native words must be the next unread words. Non-trivial = >=2 different call kinds and at least one of: zero length, tail 1..7, a call straddling a block refill, a pending half followed by another call; distinct by hash of (spec, pre, ops).".into(),
+        rule: "cases = (type in 19 deterministic generators + scripted-timer JitterRng) x constructor (from_seed incl. zero seeds, seed_from_u64) x pre-advance (every buffer index) x history of next_u32/next_u64/fill_bytes(n) (n in {0; 1-8; 9-64; around one and two blocks; exact multiples of the block size; <=5000; 64 KiB and more}); for the buffered generators a second family of boundary-focused histories (pre-advance within 3 words of a block boundary, calls that land exactly on / one short of / one past it); destination slices start at varying offsets from an 8-byte boundary. Generator A executes the history; twin B, built the same way, is only asked for native-width words; the projection model written from the statement predicts every value A returns from B's word stream, and at the end A's next 4 native words must be the next unread words. Non-trivial = >=2 different call kinds and at least one of: zero length, tail 1..7, a call straddling a block refill, a pending half followed by another call; distinct by hash of (spec, pre, ops).".into(),
         explanation: None,
         assumptions: vec![
             "the native word stream is supplied by a twin instance of the same crate type (determinism of construction is itself checked by C10/C19)".into(),
